@@ -13,6 +13,29 @@
 using rkcommon::containers::TransactionalBuffer;
 using rkcommon::utility::TransactionalValue;
 
+// ---- allocation-failure injection: every `new` of this binary goes through here; a thread can ask for its own
+// allocations of at least t_failNewAtLeast bytes to fail (std::bad_alloc).  malloc/free underneath keep the sanitizers'
+// view of the heap intact.
+static thread_local size_t t_failNewAtLeast = 0;
+static thread_local long t_failedNews = 0;
+static void *newOrThrow(size_t n)
+{
+  if (t_failNewAtLeast && n >= t_failNewAtLeast) {
+    ++t_failedNews;
+    throw std::bad_alloc();
+  }
+  void *p = malloc(n ? n : 1);
+  if (!p)
+    throw std::bad_alloc();
+  return p;
+}
+void *operator new(size_t n) { return newOrThrow(n); }
+void *operator new[](size_t n) { return newOrThrow(n); }
+void operator delete(void *p) noexcept { free(p); }
+void operator delete[](void *p) noexcept { free(p); }
+void operator delete(void *p, size_t) noexcept { free(p); }
+void operator delete[](void *p, size_t) noexcept { free(p); }
+
 // payload whose copy / move operations yield: pre-emption points INSIDE the containers' critical sections
 struct Yielding
 {
@@ -455,6 +478,132 @@ static void value_bursts(const BurstCase &c, pbt::Ctx &ctx)
   ctx.nt(big);
 }
 
+// ---------------------------------------------------------------- error paths
+// (a) consume() under an allocation failure in the consuming thread: whatever consume() does internally, an element that
+//     was pushed is delivered exactly once - by this call or, if it throws, by a later one.
+// (b) update() whose payload assignment throws (a rule-of-three type: "moving" it copies, and the copy allocates): the
+//     value stays queued, a later update() installs it.  One thread; this is about histories, not interleavings.
+struct Legacy
+{
+  int *p;
+  static thread_local int failAssign;
+  explicit Legacy(int v = 0) : p(new int(v)) {}
+  Legacy(const Legacy &o) : p(new int(*o.p)) {}
+  Legacy &operator=(const Legacy &o)
+  {
+    if (failAssign > 0) {
+      --failAssign;
+      throw std::bad_alloc();
+    }
+    int *q = new int(*o.p);
+    delete p;
+    p = q;
+    return *this;
+  }
+  ~Legacy() { delete p; }
+};
+thread_local int Legacy::failAssign = 0;
+
+struct ErrCase
+{
+  std::vector<pbt::Op> ops;
+  auto tie() { return std::tie(ops); }
+};
+static void error_paths(const ErrCase &c, pbt::Ctx &ctx)
+{
+  // (a) buffer
+  {
+    TransactionalBuffer<long long> buf;
+    std::vector<long long> delivered;
+    long long next = 0;
+    bool failedConsume = false;
+    for (const pbt::Op &op : c.ops) {
+      switch (((op.k % 3) + 3) % 3) {
+      case 0: {  // push a run: 1..20000 elements (8 bytes each: batches below and above 64 KiB)
+        static const int runs[] = {1, 7, 300, 8191, 8192, 8193, 20000};
+        const int n = runs[(size_t)op.a % 7];
+        for (int i = 0; i < n; ++i)
+          buf.push_back(next++);
+        break;
+      }
+      case 1: {  // consume normally
+        auto b = buf.consume();
+        delivered.insert(delivered.end(), b.begin(), b.end());
+        break;
+      }
+      default: {  // consume while this thread's larger allocations fail
+        static const size_t limits[] = {1, 4096, 32768, 65536};
+        t_failNewAtLeast = limits[(size_t)op.b % 4];
+        std::vector<long long> b;
+        bool threw = false;
+        try {
+          b = buf.consume();
+        } catch (const std::bad_alloc &) {
+          threw = true;
+        }
+        t_failNewAtLeast = 0;
+        if (threw)
+          failedConsume = true;
+        delivered.insert(delivered.end(), b.begin(), b.end());
+        break;
+      }
+      }
+    }
+    auto rest = buf.consume();
+    delivered.insert(delivered.end(), rest.begin(), rest.end());
+    PBT_ASSERT_MSG((long long)delivered.size() == next, "pushed " << next << " elements, the consumed batches hold " << delivered.size() << (failedConsume ? " (a consume() had failed with bad_alloc in between)" : ""));
+    for (size_t i = 0; i < delivered.size(); ++i)
+      PBT_ASSERT_MSG(delivered[i] == (long long)i, "element " << i << " of the consumed sequence is " << delivered[i]);
+    if (failedConsume)
+      ctx.label("a consume() threw bad_alloc");
+  }
+  // (b) value
+  {
+    TransactionalValue<Legacy> tv(Legacy(0));
+    int last = 0, current = 0;
+    bool queued = false, failedUpdate = false;
+    for (const pbt::Op &op : c.ops) {
+      switch (((op.c % 3) + 3) % 3) {
+      case 0:
+        tv = Legacy(++last);
+        queued = true;
+        break;
+      case 1: {
+        const bool u = tv.update();
+        PBT_ASSERT_MSG(u == queued, "update() returned " << u << " with" << (queued ? "" : "out") << " a queued value");
+        if (u)
+          current = last;
+        queued = false;
+        break;
+      }
+      default: {  // the consumer's update() fails inside the payload assignment
+        Legacy::failAssign = queued ? 1 : 0;
+        bool threw = false;
+        try {
+          const bool u = tv.update();
+          if (u)
+            current = last, queued = false;
+        } catch (const std::bad_alloc &) {
+          threw = true;
+        }
+        Legacy::failAssign = 0;
+        if (threw) {
+          failedUpdate = true;
+          ctx.label("an update() threw in the payload assignment");
+        }
+        break;
+      }
+      }
+      PBT_ASSERT_MSG(*tv.ref().p == current, "get() yields " << *tv.ref().p << ", the consumer installed " << current);
+    }
+    // the producer has stopped: the consumer obtains the last value
+    const bool u = tv.update();
+    PBT_ASSERT_MSG(u == queued, "final update() returned " << u << " with" << (queued ? "" : "out") << " a queued value" << (failedUpdate ? " (an earlier update() had thrown)" : ""));
+    PBT_ASSERT_MSG(*tv.get().p == last, "after the producer stopped the consumer holds " << *tv.get().p << ", last assigned " << last);
+    ctx.nt(failedUpdate);
+  }
+}
+
 // ---------------------------------------------------------------- value
 struct ValCase
 {
@@ -551,6 +700,7 @@ static void register_properties()
   auto brc = gen::build<BurstCase>(gen::set(&BurstCase::bursts, pbt::vec(pbt::range<int>(0, burstMaxIndex()), 6)));
   pbt::property<BurstCase>("value_bursts_int", 20, brc, value_bursts<long long>);
   pbt::property<BurstCase>("value_bursts_string", 10, brc, value_bursts<std::string>);
+  pbt::property<ErrCase>("error_paths", 300, gen::build<ErrCase>(gen::set(&ErrCase::ops, pbt::vec(pbt::genOp(3, 6, 3, 2), 24))), error_paths);
   auto valc = gen::build<ValCase>(gen::set(&ValCase::assignments, pbt::range<int>(0, 300)), gen::set(&ValCase::producerPause, pbt::range<int>(0, 3)),
       gen::set(&ValCase::consumer, pbt::vec(pbt::range<int>(0, 2), 300)), gen::set(&ValCase::yields, pbt::range<int>(0, 2)));
   pbt::property<ValCase>("value_int", 150, valc, value_case<long long>);
